@@ -9,7 +9,9 @@ Inductive obs : Type :=
     (* block; regn = registry supply of the native token; mints = native amounts minted by the ubi end blocker, in order *)
 | TObs (res : Z) (nat_after : Z) (t : option tok) (bank_d : Z)                        (* token operation on denom d *)
 | UObs (res : Z) (nat_after : Z) (ubis : list ubi)                                    (* ubi proposal *)
-| PObs (res : Z) (nat_after : Z).                                                     (* parameters, fee flow *)
+| PObs (res : Z) (nat_after : Z)                                                      (* parameters, fee flow *)
+| GObs (res : Z) (nat_after : Z) (ps ys : snap) (ubis : list ubi) (pool0 : Z) (regs : list (Z * tok)) (banks : list (Z * Z)).
+    (* genesis round trip: both snapshots, UBI records, pool balance, the whole registry, bank supply of every registered denom *)                                                     (* parameters, fee flow *)
 
 Record init := mkInit { i_supply : Z; i_bals : list ((Z * Z) * Z); i_params : params; i_psnap : snap; i_ysnap : snap }.
 Record c13_case := mkCase { c_init : init; c_steps : list (op * obs) }.
@@ -36,6 +38,10 @@ Definition obs_eqb (a b : obs) : bool :=
   | TObs r1 n1 t1 b1, TObs r2 n2 t2 b2 => (r1 =? r2) && (n1 =? n2) && otok_eqb t1 t2 && (b1 =? b2)
   | UObs r1 n1 u1, UObs r2 n2 u2 => (r1 =? r2) && (n1 =? n2) && list_eqb ubi_eqb u1 u2
   | PObs r1 n1, PObs r2 n2 => (r1 =? r2) && (n1 =? n2)
+  | GObs r1 n1 p1 y1 u1 q1 g1 b1, GObs r2 n2 p2 y2 u2 q2 g2 b2 =>
+      (r1 =? r2) && (n1 =? n2) && snap_eqb p1 p2 && snap_eqb y1 y2 && list_eqb ubi_eqb u1 u2 && (q1 =? q2)
+      && list_eqb (fun a b => (fst a =? fst b) && tok_eqb (snd a) (snd b)) g1 g2
+      && list_eqb (fun a b => (fst a =? fst b) && (snd a =? snd b)) b1 b2
   | _, _ => false
   end.
 
@@ -70,6 +76,10 @@ Definition model_obs (s : st) (o : op) : st * obs :=
       | Ok (s1, s2, s3) => (s3, BObs 0 (nat_supply s1) (nat_supply s2) (s_psnap s3) (s_ysnap s3) (s_ubis s3) (zget 0 (s_pools s3)) (reg_native s3) (ubi_mints cf (s_ubis s1) s1))
       | r => (s, BObs (res_of r) (nat_supply s) (nat_supply s) (s_psnap s) (s_ysnap s) (s_ubis s) (zget 0 (s_pools s)) (reg_native s) [])
       end
+  | OGenesis =>
+      let s' := step_total cf s o in
+      (s', GObs 0 (nat_supply s') (s_psnap s') (s_ysnap s') (s_ubis s') (zget 0 (s_pools s')) (s_reg s')
+                (map (fun e => (fst e, supply_of s' (fst e))) (s_reg s')))
   | OParams _ _ _ | OHardcap _ | OFee _ _ =>
       let r := step cf s o in let s' := step_total cf s o in (s', PObs (res_of r) (nat_supply s'))
   | OUbiUpsert _ _ _ _ _ _ | OUbiRemove _ =>
@@ -179,6 +189,17 @@ Definition check_step (k : cst) (o : op) (ob : obs) : list string * cst :=
       (cl (chk_origin (k_native k) n) "origin",
        with_native (if res =? 0 then let p := k_params k in mkCst (k_now k) (mkParams (p_rate p) (p_period p) (p_maxann p) v) (k_psnap k) (k_ysnap k) (k_native k) (k_ubis k) (k_toks k) else k) n)
   | OFee _ _, PObs res n => (cl (chk_origin (k_native k) n) "origin", with_native k n)
+  | OGenesis, GObs res n ps ys ubis _ regs banks =>
+      (* a genesis round trip changes nothing the property speaks about: the checker's own record (snapshots as
+         observed at the blocks that took them, UBI records, registry records, supplies) simply carries across *)
+      (cl (res =? 0) "genesis_fails"
+       ++ cl (n =? k_native k) "genesis_supply"
+       ++ cl (snap_eqb (snap_norm ps) (snap_norm (k_psnap k)) && snap_eqb (snap_norm ys) (snap_norm (k_ysnap k))) "genesis_snapshots"
+       ++ cl (list_eqb ubi_eqb ubis (k_ubis k)) "genesis_ubi"
+       ++ cl (forallb (fun e => otok_eqb (aget (fst e) regs) (v_tok (view_of k (fst e)))) regs
+              && forallb (fun e => snd e =? v_bank (view_of k (fst e))) banks
+              && forallb (fun e => match v_tok (view_of k (fst e)) with Some _ => existsb (fun r => fst r =? fst e) regs | None => true end) (k_toks k)) "genesis_registry",
+       mkCst (k_now k) (k_params k) (snap_norm (k_psnap k)) (snap_norm (k_ysnap k)) (k_native k) (k_ubis k) (k_toks k))
   | OUbiUpsert name amount period start end_ pool, UObs res n ubis =>
       (cl (chk_origin (k_native k) n) "origin"
        ++ (if res =? 0 then
